@@ -187,7 +187,9 @@ def file_cases(draw):
     mode = draw(st.sampled_from(['plain', 'hex', 'prefix', 'mixed_np', 'mixed_p', 'mixed_np', 'mixed_p']))
     eol = draw(st.sampled_from(['\n', '\n', '\r\n']))
     styles = draw(st.lists(st.integers(0, 7), min_size=1, max_size=4))
-    return {'encoding': enc, 'entries': ents, 'junk': [[k, j.hex()] for k, j in junks], 'mode': mode, 'eol': eol, 'styles': styles}
+    enc2 = draw(st.sampled_from([None, 'latin-1', 'cp1251', 'iso-8859-15', 'utf-8']))
+    return {'encoding': enc, 'entries': ents, 'junk': [[k, j.hex()] for k, j in junks], 'mode': mode, 'eol': eol, 'styles': styles,
+            'second_encoding': enc2}
 
 
 def materialise(case, mode=None):
@@ -217,6 +219,18 @@ def prop_reader(case, rec):
         raise Violation('reader_num_passwords', f'num_passwords {got[1]} != {want[1]}', case)
     if got[2] != want[2]:
         raise Violation('reader_num_encoding_errors', f'num_encoding_errors {got[2]} != {want[2]}', case)
+    # the result is a function of (bytes, encoding, prefixcount) only: the same bytes read again in this process under another
+    # encoding (where $HEX[..] payloads and high bytes mean other characters), then under the first one again
+    enc2 = case.get('second_encoding')
+    if enc2 and enc2 != case['encoding']:
+        for enc in (enc2, case['encoding']):
+            got = guard(case, real_read, path, enc, prefix)
+            want = reference_read(data, enc, prefix)
+            if got != want:
+                k = next((i for i, (a, b) in enumerate(zip(got[0], want[0])) if a != b), min(len(got[0]), len(want[0])))
+                raise Violation('reader_sequence', f'the same file read again as {enc} (after a read as {case["encoding"] if enc == enc2 else enc2} in this process): '
+                                f'differs from the reference reader at #{k}: got {got[0][k:k + 3]!r}, expected {want[0][k:k + 3]!r}; counters {got[1:]} vs {want[1:]}', case)
+        rec.cls('reread_under_second_encoding')
 
 
 def run_reader(rec, seed, shard, nshards, tier):
